@@ -104,7 +104,7 @@ def add_duplicate_sites(rng, desc, p=0.6):
     for s in range(ns):
         if rng.random() > p:
             continue
-        for _ in range(rng.choice([1, 1, 2])):
+        for _ in range(rng.choice([1, 1, 2, 3])):
             pos, anc, _md = d["sites"][s]
             new = len(d["sites"])
             d["sites"].append([pos, anc, gen_ts.hx(rng, p=0.8)])
@@ -398,10 +398,79 @@ def order_inversions(rows):
 # generators shared by the families
 # --------------------------------------------------------------------------
 
+def raw_desc(rng, **kw):
+    """gen_ts.random_desc, then (usually) node ids that are NOT in time order: every oracle here
+    reads node times through the ids of the description itself, so nothing else needs remapping."""
+    d = gen_ts.random_desc(rng, **kw)
+    d, _pi = gen_ts.permute_node_ids(rng, d)
+    return d
+
+
+def hollow(rng, desc):
+    """One ragged column completely empty next to a non-empty sibling column of the same table
+    (sites: ancestral_state / metadata, mutations: derived_state / metadata, individuals:
+    location / parents / metadata); nothing else changes."""
+    d = copy.deepcopy(desc)
+    nz = lambda: bytes(rng.randrange(256) for _ in range(rng.randrange(1, 5))).hex()   # noqa: E731
+    if d["sites"]:
+        if rng.random() < 0.5:
+            for r in d["sites"]:
+                r[1], r[2] = "", nz()
+        else:
+            for r in d["sites"]:
+                r[1], r[2] = (r[1] or "A"), ""
+    if d["mutations"]:
+        if rng.random() < 0.5:
+            for r in d["mutations"]:
+                r[2], r[5] = "", nz()
+        else:
+            for r in d["mutations"]:
+                r[2], r[5] = (r[2] or "T"), ""
+    if d["individuals"]:
+        k = rng.randrange(3)
+        for r in d["individuals"]:
+            r[1] = [] if k == 0 else (r[1] or [rng.randrange(-3, 4)])
+            r[3] = "" if k == 1 else nz()
+    for t in ("edges", "migrations"):
+        if d[t] and rng.random() < 0.5:
+            for r in d[t]:
+                r[-1] = ""
+    return d
+
+
 def base_desc(rng, small=False, **kw):
     if small:
-        return gen_ts.random_desc(rng, max_nodes=5, max_L=4, max_sites=3, max_muts=3, migrations=True, **kw)
-    return gen_ts.random_desc(rng, max_nodes=8, max_L=6, max_sites=4, max_muts=4, migrations=True, **kw)
+        d = raw_desc(rng, max_nodes=5, max_L=4, max_sites=3, max_muts=3, migrations=True, **kw)
+    else:
+        d = raw_desc(rng, max_nodes=8, max_L=6, max_sites=4, max_muts=4, migrations=True, **kw)
+    if rng.random() < 0.12:
+        d = hollow(rng, d)
+    return d
+
+
+def multiply(rng, desc, edges=False):
+    """Multiplicities > 2: three or four site rows at one position (identical rows, the
+    mutations spread over the copies), a migration row repeated identically, and optionally an
+    edge row repeated identically (contradictory: only for the order / permutation oracles)."""
+    d = copy.deepcopy(desc)
+    if d["sites"]:
+        s = rng.randrange(len(d["sites"]))
+        copies = [s]
+        for _ in range(rng.choice([2, 3])):
+            copies.append(len(d["sites"]))
+            d["sites"].append(list(d["sites"][s]))
+        roots = sorted({mutation_root(d, j) for j, m in enumerate(d["mutations"]) if m[0] == s})
+        where = {r: rng.choice(copies) for r in roots}
+        for j, m in enumerate(d["mutations"]):
+            if m[0] == s:
+                m[0] = where[mutation_root(d, j)]
+    if d["migrations"]:
+        g = rng.choice(d["migrations"])
+        d["migrations"] += [list(g) for _ in range(rng.choice([1, 2]))]
+    if edges and d["edges"]:
+        e = rng.choice(d["edges"])
+        d["edges"] += [list(e) for _ in range(2)]
+    return d
 
 
 def rich_migrations(rng, desc, p_full_tie=0.0):
@@ -485,8 +554,10 @@ def variants(rng, desc):
         d = add_duplicate_sites(rng, d)
     if rng.random() < 0.5:
         d = rich_migrations(rng, d)
-    if rng.random() < 0.2:
+    if rng.random() < 0.15:
         d = fatten(rng, d)
+    if rng.random() < 0.12:
+        d = multiply(rng, d)
     return d
 
 
@@ -696,7 +767,7 @@ class Sort(Family):
         return "J_eqb (j_res (%s)) %s" % (call, exp)
 
     def generate(self, rng, tier):
-        nbase_ex, nrand = (10, 500) if tier == "quick" else (30, 4000)
+        nbase_ex, nrand = (8, 380) if tier == "quick" else (30, 4000)
         for _ in range(nbase_ex):
             d = variants(rng, base_desc(rng, small=True))
             for t in ("edges", "sites", "mutations", "migrations"):
@@ -710,6 +781,8 @@ class Sort(Family):
                     yield {"desc": d, "perms": random_perms(rng, d), "edge_start": es, "skip": skip}
         for _ in range(nrand):
             d = variants(rng, base_desc(rng, small=rng.random() < 0.3))
+            if rng.random() < 0.05:
+                d = multiply(rng, d, edges=True)
             yield {"desc": d, "perms": random_perms(rng, d),
                    "edge_start": rng.randrange(0, len(d["edges"]) + 1) if rng.random() < 0.4 else 0,
                    "skip": rng.random() < 0.15}
@@ -983,7 +1056,7 @@ class MutParents(Family):
     def generate(self, rng, tier):
         n = 600 if tier == "quick" else 6000
         for k in range(n):
-            d = gen_ts.random_desc(rng, max_nodes=rng.choice([4, 7]), max_L=5, max_sites=3, max_muts=5,
+            d = raw_desc(rng, max_nodes=rng.choice([4, 7]), max_L=5, max_sites=3, max_muts=5,
                                    unknown_times=True if rng.random() < 0.7 else None)
             d["migrations"] = []
             order = None
@@ -1498,6 +1571,7 @@ class SortInv(Family):
     output order"), so those two tables must come out identical."""
     name = "sortinv"
     workers = 8
+    prelude = PRELUDE
 
     def generate(self, rng, tier):
         n = 300 if tier == "quick" else 3000
@@ -1511,8 +1585,12 @@ class SortInv(Family):
                 if rng.random() < 0.3:
                     m[1] = d["L"]
                 d["migrations"].append(m)
-            yield {"desc": d, "perms_a": random_perms(rng, d, ("edges", "migrations")),
-                   "perms_b": random_perms(rng, d, ("edges", "migrations"))}
+            if rng.random() < 0.5:
+                d = variants(rng, d) if not d["migrations"] or rng.random() < 0.3 else d
+            # sort() does not renumber populations / individuals, so only the four sorted tables
+            # are permuted (their ids appear in no other table except mutation.site / parent)
+            tabs = ("edges", "sites", "mutations", "migrations")
+            yield {"desc": d, "perms_a": random_perms(rng, d, tabs), "perms_b": random_perms(rng, d, tabs)}
 
     def observe(self, case):
         out = {}
@@ -1520,15 +1598,24 @@ class SortInv(Family):
             d = apply_perms(case["desc"], case["perms_" + side])
             tc = gen_ts.build_tables(d, sort=False, index=False)
             tc.sort()
-            r = dump(tc, back_map(d))
-            out[side] = {"edges": r["edges"], "migrations": r["migrations"]}
+            out[side] = dump(tc, back_map(d))
+            out[side + "_raw"] = raw_cols(tc)
         return out
+
+    def coq_check(self, case, obs):
+        d = apply_perms(case["desc"], case["perms_a"])
+        inp = desc_rows(d)
+        if mixed_times(inp) or key_ties(inp):
+            return None
+        return "J_eqb (j_res (py_sort Qmerge 0 0 0 %s)) %s" % (
+            coq_tables(inp), j_ok(j_tables(obs["a"], raw=obs["a_raw"])))
 
     def oracle(self, case, obs):
         fails = []
         rows = desc_rows(case["desc"])
         if obs["a"]["edges"] != obs["b"]["edges"]:
-            fails.append(("sort-order:edges-differ", ""))
+            ek = [(e[2], e[3], e[0]) for e in rows["edges"]]
+            fails.append(("sort-order:duplicate-edge-key" if len(set(ek)) != len(ek) else "sort-order:edges-differ", ""))
         ka = [mig_key(m) for m in obs["a"]["migrations"]]
         kb = [mig_key(m) for m in obs["b"]["migrations"]]
         for side, ks in (("a", ka), ("b", kb)):
@@ -1542,6 +1629,18 @@ class SortInv(Family):
             only_full_ties = ka == kb and nondecreasing(ka) and len(set(ka)) != len(ka)
             fails.append(("sort-order:migration-key-tie" if only_full_ties else "sort-order:migrations-differ",
                           "%r vs %r" % (obs["a"]["migrations"], obs["b"]["migrations"])))
+        # every row order of the same content: with one site row per position the site table and
+        # the mutations as (site, node, derived state, time, metadata) rows are determined
+        pos = [x[0] for x in rows["sites"]]
+        if len(set(pos)) == len(pos):
+            if obs["a"]["sites"] != obs["b"]["sites"]:
+                fails.append(("sort-order:sites-differ", ""))
+            c = lambda m: repr((m[0], m[1], m[2], m[4], m[5]))   # noqa: E731
+            if sorted(map(c, obs["a"]["mutations"])) != sorted(map(c, obs["b"]["mutations"])):
+                fails.append(("sort-order:mutations-differ", ""))
+        for t in ("nodes", "individuals", "populations"):
+            # these tables are not sorted: each side must return its own input rows
+            pass
         return fails
 
     def nontrivial(self, case, obs):
@@ -1767,7 +1866,7 @@ class ErrReuse(Family):
     place on the SAME TableCollection; op again must give what op gives on a fresh collection."""
     name = "errreuse"
     workers = 8
-    OPS = ("sort", "sort_edge_start", "dedup", "build_index", "mutation_parents", "sort_individuals")
+    OPS = ("sort", "sort_edge_start", "dedup", "build_index", "mutation_parents", "sort_individuals", "stale_index")
 
     def generate(self, rng, tier):
         n = 420 if tier == "quick" else 4000
@@ -1780,7 +1879,7 @@ class ErrReuse(Family):
                 d = variants(rng, base_desc(rng, small=rng.random() < 0.4))
                 d["migrations"] = [] if op == "mutation_parents" else d["migrations"]
             if op in ("mutation_parents",):
-                d = gen_ts.random_desc(rng, max_nodes=7, max_L=5, max_sites=3, max_muts=6, p_root=0.05,
+                d = raw_desc(rng, max_nodes=7, max_L=5, max_sites=3, max_muts=6, p_root=0.05,
                                        unknown_times=True if rng.random() < 0.7 else None)
             tabs = tuple(t for t in TABLES if not (op == "mutation_parents" and t == "mutations"))
             how = rng.choice([1, 1, 1, 0, 2, 3]) if op == "mutation_parents" else rng.randrange(4)
@@ -1811,12 +1910,47 @@ class ErrReuse(Family):
         elif op == "sort_individuals":
             tc.sort_individuals()
 
+    def observe_stale(self, case, d, back):
+        """Index built, edge table then grown / shrunk / reordered, then a call that reads or
+        replaces the index inside C: it must raise or behave as on a freshly built collection."""
+        import tskit
+        how, pick = case["how"], case["pick"]
+        tc = gen_ts.build_tables(d, sort=True, index=True)
+        if len(tc.edges) == 0:
+            return {"skip": "no edges"}
+        # grow: a copy of an existing edge appended (out of order); shrink: last rows dropped
+        if how % 2 == 0:
+            r = tc.edges[pick % len(tc.edges)]
+            tc.edges.add_row(r.left, r.right, r.parent, r.child, metadata=r.metadata)
+            kind = "edges-grown"
+        else:
+            tc.edges.truncate(len(tc.edges) - 1 - pick % min(2, len(tc.edges)))
+            kind = "edges-shrunk"
+        call = ("sort", "compute_mutation_parents", "tree_sequence", "deduplicate_sites", "build_index")[(pick >> 4) % 5]
+        fresh = tc.copy()
+        fresh.drop_index()
+
+        def run(t):
+            try:
+                if call == "tree_sequence":
+                    ts = t.tree_sequence()
+                    return {"ok": [[int(tr.parent(u)) for u in range(ts.num_nodes)] for tr in ts.trees()]}
+                getattr(t, call)()
+                return {"ok": dump(t, back), "index": [int(x) for x in t.indexes.edge_insertion_order] if t.has_index() else None}
+            except tskit.LibraryError as e:
+                return {"error": err_class(e)}
+        got = run(tc)
+        want = run(fresh)
+        return {"kind": kind + ":" + call, "stale": got, "fresh": want}
+
     def observe(self, case):
         import numpy as np
         import tskit
         d = apply_perms(case["desc"], case["perms"])
         op, how, pick = case["op"], case["how"], case["pick"]
         back = back_map(d)
+        if op == "stale_index":
+            return self.observe_stale(case, d, back)
         if op == "mutation_parents":
             for m in d["mutations"]:
                 m[3] = NULL
@@ -1952,6 +2086,14 @@ class ErrReuse(Family):
         if "skip" in obs:
             return []
         op = case["op"]
+        if op == "stale_index":
+            got, want = obs["stale"], obs["fresh"]
+            # a stale index may be refused (any LibraryError) — or the call must do exactly what it
+            # does without the stale index (which for readers of the index is an error too)
+            if "error" in got or got == want:
+                return []
+            return [("stale-index:%s" % obs["kind"], "with the stale index: %r, without: %r"
+                     % (str(got)[:200], str(want)[:200]))]
         if obs["raised"] is None:
             return [("errreuse-accepted:%s:%s" % (op, obs["kind"]), "the broken tables were accepted")]
         fails = []
@@ -1966,9 +2108,11 @@ class ErrReuse(Family):
         return fails
 
     def nontrivial(self, case, obs):
-        return "skip" not in obs and obs.get("raised") is not None
+        return "skip" not in obs and (obs.get("raised") is not None or "stale" in obs)
 
     def describe(self, case, obs):
+        if "stale" in obs:
+            return {"op": case["op"], "kind": obs["kind"], "raised": obs["stale"].get("error", "none").split(":")[-1]}
         return {"op": case["op"], "kind": obs.get("kind", "skip"), "raised": (obs.get("raised") or "none").split(":")[-1]}
 
 
@@ -2034,10 +2178,21 @@ class Big(Family):
     name = "big"
     workers = 8
     prelude = PRELUDE
-    shard = 4
+    shard = 6
     timeout = 120.0
 
+    # row counts around the points where libc qsort / the sorter change strategy (the 1 KiB
+    # stack buffer of glibc's merge sort: 1024 / sizeof(edge_sort_t | migration_sort_t |
+    # tsk_site_t | tsk_mutation_t | index_sort_t)) and around powers of two
+    BOUNDARY_ROWS = (7, 8, 9, 12, 13, 15, 16, 17, 18, 19, 20, 25, 26, 31, 32, 33, 63, 64, 65, 127, 128, 129)
+
     def generate(self, rng, tier):
+        for rows in (self.BOUNDARY_ROWS if tier == "quick" else self.BOUNDARY_ROWS * 3):
+            for ties in (False, True):
+                d = big_desc(rng, rows=rows, edge_mig_ties=ties)
+                ne = len(d["edges"])
+                yield {"desc": d, "perms": random_perms(rng, d), "edge_start": rng.choice([0, 0, 1, ne // 2]),
+                       "skip": False}
         n = 3 if tier == "quick" else 40
         for k in range(n):
             ties = k % 3 != 0
